@@ -1082,6 +1082,10 @@ pub fn selftest_known() -> i32 {
     let mut n = 0;
     for k in known.iter().filter(|k| k.status == "open") {
         n += 1;
+        if k.example_replay.is_empty() {
+            println!("alias {} {} (no replay of its own)", k.class, k.origin_fn);
+            continue;
+        }
         let path = format!("{}/{}", verif_root(), k.example_replay);
         let rf: ReplayFile = match std::fs::read_to_string(&path).ok().and_then(|t| serde_json::from_str(&t).ok()) {
             Some(r) => r,
